@@ -229,6 +229,7 @@ class World:
         self.grad_poisoned = False
         self.aborted_backward = False
         self.graph_cycle_seen = False
+        self.twin_skip_grad = set()
         self.exact = bool(self.cfg.get("exact", False))
         dts = self.cfg.get("dtypes", ["f8"])
         self.tol_dtype = np.float16 if "f2" in dts else (np.float32 if "f4" in dts else np.float64)
